@@ -194,6 +194,18 @@ class C13:
         init(3)
         bad_line = main.count("\n") + 2
         ic = s.add("parse_buf", 3, hx(main + "\nzz_no_such_option = 1\n"))
+        # E: an error at the end of a file that itself included a deeper file (position after the nested include returned)
+        inter = [n for n in names if "include(" in files[n]]
+        ie = None
+        if inter and depth <= 10:
+            en = inter[0]
+            bad_text = files[en] + ("" if files[en].endswith("\n") else "\n") + "zz_no_such_option = 1\n"
+            e_line = bad_text.count("\n")
+            s.add("mkfile", hx(place[en]), hx(bad_text))
+            init(5)
+            ie = s.add("parse_buf", 5, hx(main))
+            s.add("free", 5)
+            s.add("mkfile", hx(place[en]), hx(files[en]))
         init(4)
         fk = case.get("fail_kind", "missing")
         target = {"missing": "nonexistent.conf", "directory": os.path.join(base, "adir"), "self": os.path.join(base, "self.conf"),
@@ -236,6 +248,14 @@ class C13:
                 elif dg[-1][0] != want_file or dg[-1][1] != bad_line:
                     fail = Failure("error-after-include/%s" % ("file" if dg[-1][0] != want_file else "line"),
                                    "error on line %d of the main text reported as %r\nmain %r\nfiles %r" % (bad_line, dg[-1], main, files))
+            if fail is None and ie is not None:
+                dg = unhex_diag(t[ie])
+                want = place[en] if mode in ("abs", "path1", "path3") else en
+                if t[ie]["rc"] != 1 or not dg:
+                    fail = Failure("error-in-intermediate-file-not-reported", "rc %d diag %r" % (t[ie]["rc"], dg))
+                elif dg[-1][1] != e_line or os.path.basename(dg[-1][0] or "") != en:
+                    fail = Failure("error-after-nested-include/%s" % ("line" if os.path.basename(dg[-1][0] or "") == en else "file"),
+                                   "error on line %d of %s (after its nested include returned) reported as %r\nfile %r" % (e_line, en, dg[-1], bad_text))
             if fail is None and case.get("fail_repeat"):
                 bad = [k for k in hist if t[k]["rc"] != 1 or not unhex_diag(t[k])]
                 if bad:
